@@ -37,6 +37,42 @@ PROPS = {
              "the genuine defect D1 (truncating division for negative f) was repaired by a fix: commit.",
         technique="Lean 4 theorems over an executable model + differential correspondence with the Go code",
     ),
+    "C04": dict(
+        modules=["SpatialId.Props.C04"],
+        families=[("mrgExt", 4000, 20000), ("mrgSp", 3000, 15000)],
+        trusted_base=COMMON_TB + ["Go map-based grouping read as a declarative group-by (same groups, same member order)"],
+        assumptions=["int64(math.Pow(2, n)) is exact for 0 <= n <= 62"],
+        claim="Theorems (Props/C04.lean over Spec/Region.lean): mem_merge characterises the result completely (ineligible "
+              "inputs verbatim; the target voxel of every group whose members cover it; members of every other group "
+              "verbatim), with 'dense' proved equivalent to 'the members' regions cover the target voxel' by a pigeonhole "
+              "argument on the unit voxels; hence merge_region (same region of R^3), merge_nodup, merge_dense, "
+              "merge_unchanged and merge_idem. No bound on sizes or zoom spread. Tied to MergeExtendedSpatialIds / "
+              "MergeSpatialIds by exact set comparison on generated groups (complete, one-short, partial, mixed zooms, "
+              "straddling ground level, duplicates, ineligible inputs, malformed IDs).",
+        note="Lean kernel + propext/Classical.choice/Quot.sound; model tied by sampling; defect D2 (Higher truncated "
+             "negative f) repaired by a fix: commit. The reflection symmetry above/below ground is a corollary of the "
+             "characterisation (floor ancestor on every axis) and is not stated separately.",
+        technique="Lean 4 theorems over an executable model + differential correspondence with the Go code",
+    ),
+    "C05": dict(
+        modules=["SpatialId.Props.C05"],
+        families=[("ovE", 10000, 60000), ("ovEA", 5000, 30000), ("ovS", 10000, 60000), ("ovSA", 5000, 30000)],
+        trusted_base=COMMON_TB + [
+            "multidimensional-radix-tree (third party) is an oracle: IsOverlap(q) holds iff a stored key is a prefix of q or "
+            "q a prefix of it; it panics only on an empty tree (guarded since the D3 fix)"],
+        assumptions=["printing an ID is injective (Go compares printed IDs, the model compares voxels)"],
+        claim="Theorems (Props/C05.lean): for well-formed IDs the extended check answers true exactly when the two regions of "
+              "R^3 share a point (ext_iff_meet), equivalently ancestor-or-equal on both axes; symmetric; reflexive; array form "
+              "= disjunction of the pairwise form, false on an empty list; the spatial-ID check, relative to the abstract "
+              "tree, answers the same relation for every valid ID with |alt| <= 2^24 m at zooms 1..35, including zoom > 25 "
+              "(sp_iff_meet, sp_eq_ext); neither model panics. Tied to the four Go functions by exact comparison on related "
+              "pairs (ancestor/descendant/sibling/neighbour, negative f, zooms 26-35, empty lists, malformed IDs), both "
+              "argument orders.",
+        note="Lean kernel + propext/Classical.choice/Quot.sound; model tied by sampling; radix tree abstracted. Genuine defects "
+             "D1, D3, D4, D7 were repaired by fix: commits; D14 (array forms stop at the first overlapping pair) is outside "
+             "this property (belongs to C15).",
+        technique="Lean 4 theorems over an executable model + differential correspondence with the Go code",
+    ),
     "C08": dict(
         modules=["SpatialId.Props.C08"],
         families=[("nbr", 12000, 80000), ("nN", 3000, 20000)],
@@ -63,6 +99,36 @@ PROPS = {
               "is exactly the original voxel (over R^3). Tied to the Go functions by exact comparison.",
         note="Lean kernel + propext/Classical.choice/Quot.sound; model tied by sampling; string split/join and "
              "integer print/parse are Go library semantics, compared on every case, not proved.",
+        technique="Lean 4 theorems over an executable model + differential correspondence with the Go code",
+    ),
+    "C12": dict(
+        modules=["SpatialId.Props.C12"],
+        families=[("altkey", 40000, 300000), ("altkeyLattice", 1, 1)],
+        trusted_base=COMMON_TB,
+        assumptions=["zooms and base exponent within 0..35 (all cell boundaries are then multiples of 2^-35 m)"],
+        claim="Theorems (Props/C12.lean over Spec/Altitude.lean, altitude intervals in 2^-35 m fixed point): both conversions "
+              "are given in closed form (z2k_eq, k2z_eq: result, and error exactly when ...); the Z->key range contains "
+              "every key whose cell meets the voxel's altitude interval and nothing beyond the metre-widened interval; "
+              "key->Z returns exactly the cover of the metre-widened key cell; both are exact for cells >= 1 m; min <= max; "
+              "error for a non-existent source index and whenever the exact cover leaves the target range, never when the "
+              "widened cover fits; the two directions are mutually consistent in the exact regime. Tied to the Go "
+              "functions by exact comparison on random tuples and an exhaustive 9x9x8x11x15 lattice, both directions.",
+        note="Lean kernel + propext/Classical.choice/Quot.sound; model tied by sampling (+ translator tie when enabled); "
+             "defect D5 (lost top cell, rejected top index) repaired by a fix: commit.",
+        technique="Lean 4 theorems over an executable model + differential correspondence with the Go code",
+    ),
+    "C13": dict(
+        modules=["SpatialId.Props.C13"],
+        families=[("tiles", 3000, 15000)],
+        trusted_base=COMMON_TB,
+        assumptions=["zooms and base exponent within 0..35"],
+        claim="Theorems (Props/C13.lean): a voxel is in the result iff it is some tile's footprint (hZoom, x, y unchanged) at "
+              "the requested vertical zoom with a vertical index in that tile's C12 range (mem_tilesToExt); duplicate-free; "
+              "any failing tile fails the whole call; every vertical cell meeting a tile's key cell is present (tile_covers); "
+              "the spatial-ID variant is the C10 expansion and covers the same region; NewTileXYZ accepts exactly zooms "
+              "0..35. Tied to the Go functions by exact set comparison on generated tile lists (overlapping ranges, "
+              "bad tiles anywhere in the list).",
+        note="Lean kernel + propext/Classical.choice/Quot.sound; model tied by sampling; defect D8 repaired by a fix: commit.",
         technique="Lean 4 theorems over an executable model + differential correspondence with the Go code",
     ),
 }
